@@ -51,7 +51,7 @@ def main : IO Unit := do
   | some (.list [.atom "model", .atom "pen"]) =>
     loop h out ({} : Pen.DState) Pen.driverStep {}
   | some (.list [.atom "model", .atom "geom"]) =>
-    loop h out ({} : Geom.World) Geom.driverStep {}
+    loop h out ({} : Geom.CWorld) Geom.driverStep {}
   | some (.list [.atom "model", .atom "serial"]) =>
     loop h out () Serial.driverStep ()
   | some (.list [.atom "model", .atom "repr"]) =>
